@@ -224,7 +224,8 @@ MANIFEST = {
             "maps and Gauss-Chebyshev-Lobatto weights (tolerance 1e-9 of the weight norm). "
             "deltaToTmunu: for all moments, masses, velocity (symbolic; NRA) T30 and T33 equal the "
             "directly boosted momentum integrals gamma^2<(pz+vE)(E+v pz)> and gamma^2<(pz+vE)^2>."
-            " deltaToTmunu is also checked on one EOM object across three velocities (history).",
+            " deltaToTmunu is also checked on one EOM object across three velocities (history)."
+            " With the real truncation-error diagnostic running, the deviation handed to getDeltas is left as it was (all four basis combinations).",
     "note": "mass profiles concrete inside getDeltas; quadrature exactness itself is C16; "
             "truncation/linearisation diagnostics stubbed out.",
 }
